@@ -82,6 +82,34 @@ func runIterFresh(c *core.Ctx) {
 					return true
 				})
 				_ = v
+				// an iterator variable consumed by an earlier loop of the same function is re-created before this loop
+				if bad == "" {
+					var prev []*ast.ForStmt
+					ast.Inspect(fn.Body(), func(m ast.Node) bool {
+						if f2, ok := m.(*ast.ForStmt); ok && f2 != fs && f2.Cond != nil && f2.Pos() < fs.Pos() && !(f2.Pos() <= fs.Pos() && fs.End() <= f2.End()) {
+							if _, uses := iteratorDoneCalls(info, f2.Cond)[obj]; uses {
+								prev = append(prev, f2)
+							}
+						}
+						return true
+					})
+					for _, p := range prev {
+						reassigned := false
+						ast.Inspect(fn.Body(), func(m ast.Node) bool {
+							if as, ok := m.(*ast.AssignStmt); ok && as.Pos() > p.End() && as.End() <= fs.Pos() {
+								for _, l := range as.Lhs {
+									if an.ObjOf(info, l) == obj {
+										reassigned = true
+									}
+								}
+							}
+							return true
+						})
+						if !reassigned {
+							bad = "an earlier loop at " + c.Prog.Rel(p.Pos()) + " has already exhausted it and it is not re-created in between"
+						}
+					}
+				}
 				switch {
 				case bad != "":
 					c.Bad(key, fs.Pos(), "the loop consumes iterator %s that was not created for it: %s; an iterator created elsewhere may already be exhausted, so a repeated traversal visits nothing", name, bad)
